@@ -15,9 +15,11 @@ import (
 	"strings"
 	"time"
 
+	"github.com/cloudwego/hertz/pkg/app/client/retry"
 	"github.com/cloudwego/hertz/pkg/common/config"
 	errs "github.com/cloudwego/hertz/pkg/common/errors"
 	"github.com/cloudwego/hertz/pkg/protocol"
+	hclient "github.com/cloudwego/hertz/pkg/protocol/client"
 	"github.com/cloudwego/hertz/pkg/protocol/http1"
 	"github.com/cloudwego/hertz/pkg/route"
 
@@ -102,6 +104,9 @@ type aresp struct {
 
 type ccfg struct {
 	stream, noNorm, noPathNorm, proxy, limit bool
+	// customRetry: the application configures two attempts and its own retry predicate,
+	// which defers to the framework's DefaultRetryIf (the documented way to add conditions)
+	customRetry bool
 }
 
 type cengine struct {
@@ -126,6 +131,12 @@ func work(w *mon.W) {
 		o := &http1.ClientOptions{ResponseBodyStream: cf.stream, MaxConns: 4, DisableHeaderNamesNormalizing: cf.noNorm, DisablePathNormalizing: cf.noPathNorm, ReadTimeout: 10 * time.Second}
 		if cf.limit {
 			o.MaxResponseBodySize = respLimit
+		}
+		if cf.customRetry {
+			o.RetryConfig = &retry.Config{MaxAttemptTimes: 2, DelayPolicy: retry.DefaultDelayPolicy}
+			o.RetryIfFunc = func(req *protocol.Request, resp *protocol.Response, err error) bool {
+				return err != nil && hclient.DefaultRetryIf(req, resp, err)
+			}
 		}
 		hc := crig.NewHostClient(d, o)
 		if cf.proxy {
@@ -354,6 +365,9 @@ func oneConn(w *mon.W, c *mon.Case, getC func(ccfg) *cengine, srv *sview) {
 	}
 	r := c.R
 	cf := ccfg{stream: r.Bool(), noNorm: r.Chance(8), noPathNorm: r.Chance(8), proxy: r.Chance(8), limit: r.Chance(4)}
+	// (a repeated attempt after a reported error would need the scripted peer to repeat
+	// its response: the custom predicate is combined with the idle-close disturbance only)
+	cf.customRetry = !cf.limit && r.Chance(5)
 	ce := getC(cf)
 	n := 1 + r.Intn(6)
 	var reqs []*areq
@@ -373,7 +387,11 @@ func oneConn(w *mon.W, c *mon.Case, getC func(ccfg) *cengine, srv *sview) {
 	// `die` exchanges, without having announced it), or goes silent once in the middle of
 	// a response body (one read of the client times out)
 	die, stallResp, stallAfter := 0, -1, 0
-	switch r.Intn(8) {
+	dist := r.Intn(8)
+	if cf.customRetry && dist == 2 {
+		dist = 0
+	}
+	switch dist {
 	case 0, 1:
 		if n >= 2 {
 			die = 1 + r.Intn(n-1)
